@@ -93,6 +93,66 @@ Example ex_swarm_factory_raises :
   s_returned r = false /\ length (s_workers r) = 2%nat.
 Proof. vm_compute. repeat split. Qed.
 
+(* ---- swarm against workers that own their memory --------------------------- *)
+(* the scripted stub environment of the correspondence cases: state = (step index,
+   recorded memory) of the current worker; never-repeating outputs 10w+j, no marker *)
+Definition ex_fresh_tab : list (list wstep) :=
+  map (fun w => map (fun j => WOut (Z.of_nat (10 * w + j)) false) (seq 0 8)) (seq 0 4).
+Definition ex_sup (p : mpol) (thr : Q) (mg ms : Z) :=
+  supervise_e (interp_spawn [] p) (interp_wstep ex_fresh_tab (WOut 777 false) p)
+              interp_summarize interp_memlen (O, false) thr mg ms 0 (O, []).
+Definition ex_res {A B C} (x : A * B * C) : B := snd (fst x).
+Definition ex_recs {A B C} (x : A * B * C) : C := snd x.
+
+(* workers that never write their WorkerMemory: every apoptosis event reports 0 steps and
+   no hint is ever produced, yet each worker ran exactly the 5 steps of the budget and
+   exactly 3 workers were spawned *)
+Example ex_swarm_transcript_workers :
+  let x := ex_sup MNone (9 # 10) 2 5 in
+  map w_steps (s_workers (ex_res x)) = [5; 5; 5]%nat /\
+  map we_memlen (ex_recs x) = [0; 0; 0]%nat /\
+  map we_hints (ex_recs x) = [(0, false); (0, false); (0, false)]%nat /\
+  s_success (ex_res x) = false /\ s_apoptosis (ex_res x) = 3%nat.
+Proof. vm_compute. repeat split. Qed.
+
+(* a sliding window of 2: the recorded history tops out at 3 entries while 5 steps are run *)
+Example ex_swarm_windowed_memory :
+  let x := ex_sup (MWindow 2) (9 # 10) 1 5 in
+  map w_steps (s_workers (ex_res x)) = [5; 5]%nat /\
+  map we_memlen (ex_recs x) = [3; 3]%nat /\
+  map we_hints (ex_recs x) = [(0, false); (3, false)]%nat.
+Proof. vm_compute. repeat split. Qed.
+
+(* pooled / restored workers with 4 entries already on record still get the whole budget
+   (and report 4 + 3 steps); workers recording twice per step report 2 * 3 *)
+Example ex_swarm_preloaded_and_double :
+  map w_steps (s_workers (ex_res (ex_sup (MPre 4) (9 # 10) 1 3))) = [3; 3]%nat /\
+  map we_memlen (ex_recs (ex_sup (MPre 4) (9 # 10) 1 3)) = [7; 7]%nat /\
+  map w_steps (s_workers (ex_res (ex_sup MDouble (9 # 10) 1 3))) = [3; 3]%nat /\
+  map we_memlen (ex_recs (ex_sup MDouble (9 # 10) 1 3)) = [6; 6]%nat.
+Proof. vm_compute. repeat split. Qed.
+
+(* a restored worker that is given no step at all: the "stuck repeating" hint comes from
+   its restored record alone *)
+Example ex_swarm_hint_from_restored_record :
+  map we_hints (ex_recs (ex_sup (MPre 2) (9 # 10) 1 0)) = [(0, false); (2, true)]%nat.
+Proof. vm_compute. repeat split. Qed.
+
+(* an environment in which the workers SHARE state across workers and across supervise()
+   calls (one global counter of steps ever taken; a worker finishes when it is at 7): the
+   first call (2 workers x 3 steps) fails, the second succeeds at its first worker's first step *)
+Definition ex_shared_spawn (e : nat) (_ : nat) (_ : unit) : nat * bool := (e, true).
+Definition ex_shared_step (e : nat) (_ : nat) : nat * wstep :=
+  (S e, WOut (Z.of_nat e) (Nat.eqb e 6)).
+Example ex_swarm_shared_state_history :
+  let rs := swarm_runs_e ex_shared_spawn ex_shared_step (fun _ _ => tt) (fun e _ => e) tt (1 # 2)
+                         1 3 2 0 0%nat in
+  map (fun x => map w_steps (s_workers (ex_res x))) rs = [[3; 3]; [1]]%nat /\
+  map (fun x => map w_idx (s_workers (ex_res x))) rs = [[0; 1]; [2]]%nat /\
+  map (fun x => s_output (ex_res x)) rs = [None; Some 6] /\
+  map (fun x => map we_memlen (ex_recs x)) rs = [[3; 6]; [0]]%nat.
+Proof. vm_compute. repeat split. Qed.
+
 (* ---- consecutive calls on one object -------------------------------------- *)
 (* three heal() calls with max_retries = 1 against the never-valid generator: 2 + 2 + 2
    generator invocations (6 distinct outputs: the generator goes on counting), each
